@@ -29,6 +29,19 @@ NEEDS = {
  "C18-a": "RBDS short name of PTY 15 'Classicl' -> 'Classical' (9 characters, over the 8-character display)",
  "C19-a": "one-entry static cache in rdsparser_ecc_lookup keyed on PI nibble + ECC (unknown PI aliases nibble 0xF): cross-instance interference and a data race",
  "C19-static": "the 2-byte text scratch buffer made static (mutant named in properties.jsonl): functionally invisible single-threaded",
+ "C03-b": "country lookup falls back to this group's own block A (errors not checked) when no PI is known and the extended check is on: needs ext on, PI unknown, 1A variant 0 with clean B and C, bad block A with a mapped nibble, twice",
+ "C05-b": "pi_country != 0 guard dropped in rdsparser_ecc_lookup: PI with first nibble 0 indexes lut[ecc][255] (out-of-bounds read of static data)",
+ "C07-b": "progressive guard only applies to cells before the first end-of-text marker: needs an error-free 0x0D stored, then a worse reception for a cell behind it",
+ "C10-b": "AF candidate 'unset' mask (uint8_t)~0x80 >> bitPos also clears lower candidates of the same byte: extended check, codes A < B in one byte, order A B B A",
+ "C11-b": "set_ecc skipped when the value equals the visible one, so the ECC candidate is not refreshed: extended check, A A then B A B",
+ "C12-b": "era computed from the UTC day, day-of-era from the local day: only MJD 51603/51604 with an offset crossing midnight over the 400-year era boundary",
+ "C13-b": "last_rt_flag reset moved from clear() to init(): after a clear a noisy RT group of the other flag is dropped (RT info threshold raised, no clean RT group yet)",
+ "C14-b": "trailing error byte decoded by a helper that only handles upper-case letters: lower-case a/b give levels 10/11 for blocks A and C (visible only with RT/PTYN data threshold 2 in 2A/10A)",
+ "C15-b": "register_rt resets the last RT flag when the callback pointer changes: re-registering exactly at an A/B switch changes decoding",
+ "C16-b": "progressive rejection resets the level of a cell holding the end-of-text marker to 'never received' (cell keeps 0x00): progressive on, threshold raised, clean 0x0D stored, then a corrected re-delivery",
+ "C17-b": "PTYN address mask & 3 plus an off-by-one range guard in string_update_single: a 10A group with address bits 10b writes errors[8], i.e. the PS progressive flag",
+ "C18-b": "country tables stored as fixed-width cells; the name width 28 drops the terminator of the one 28-character name (argument 192)",
+ "C19-b": "function-local static flag 'LF/MF follows' set when the second AF code is 250: the next 0A group of ANY instance loses its first AF",
  "C20-a": "end-of-line decided on the converted character: in the RDSPARSER_DISABLE_UNICODE builds an error-free 0x00 byte is stored as end-of-text marker; default build unaffected",
 }
 for sid in sorted(os.listdir(os.path.join(VERIF, "seeded"))):
